@@ -71,6 +71,12 @@ class VariantView:   # `(place as Variant)`: field .0 is the payload
         self.variant = variant
 
 
+class CFVal:         # ControlFlow<Residual, T> produced by `?` on an Option with a path-known discriminant
+    def __init__(self, cont, payload=None):
+        self.cont = cont
+        self.payload = payload
+
+
 class FnRef:         # a function item / fn pointer
     def __init__(self, path):
         self.path = path
@@ -197,6 +203,8 @@ class Exec:
             return Sc("bv", bvconst(v, 32), 32, False)
         if t.startswith('"'):
             return Opaque("str const")
+        if re.fullmatch(r"Option::<[\w:]+>::None", t):
+            return OptVal(False)
         m = re.fullmatch(r"core::num::<impl (\w+)>::BITS", t)
         if m and m.group(1) in INT_TYPES:
             return Sc("bv", bvconst(INT_TYPES[m.group(1)][0], 32), 32, False)
@@ -256,6 +264,10 @@ class Exec:
                             return self.params[b.k].payload(base.variant)
                         if isinstance(b, OptVal) and base.variant == "Some" and b.some and idx == 0:
                             return b.payload
+                        if isinstance(b, CFVal) and base.variant == "Continue" and b.cont and idx == 0:
+                            return b.payload
+                        if isinstance(b, CFVal) and base.variant == "Break" and not b.cont and idx == 0:
+                            return OptVal(False)
                         raise Unsupported("variant field of " + repr(b))
                     raise Unsupported("field of " + repr(base))
             k += 1
@@ -367,6 +379,8 @@ class Exec:
                 return Sc("bv", f"(ite {v.some} {bvconst(1, 64)} {bvconst(0, 64)})", 64, True)
             if isinstance(v, OptVal):
                 return Sc("bv", bvconst(1 if v.some else 0, 64), 64, True)
+            if isinstance(v, CFVal):
+                return Sc("bv", bvconst(0 if v.cont else 1, 64), 64, True)
             raise Unsupported("discriminant of " + repr(v))
         if t.startswith("&"):
             inner = re.sub(r"^&(mut )?", "", t).strip()
@@ -537,6 +551,11 @@ class Exec:
         if m and (m.group(1) in INT_TYPES or m.group(1) in ("f64", "bool")):
             r = self.binop("Eq" if m.group(2) == "eq" else "Ne", deref(deref(a[0])), deref(deref(a[1])))
             return [(r, [])]
+        if re.fullmatch(r"<Option<[\w:]+> as (?:std::ops::)?Try>::branch", path) and isinstance(a[0], OptVal):
+            # the `?` operator on an Option: Some(x) -> Continue(x), None -> Break(None)
+            return [(CFVal(a[0].some, a[0].payload), [])]
+        if re.fullmatch(r"<Option<std::cmp::Ordering> as (?:std::ops::)?FromResidual<Option<(?:std::convert::)?Infallible>>>::from_residual", path):
+            return [(OptOrd("false", bvconst(0, 8)), [])]
         if re.search(r"Arguments::<'_>::(from_str|new_const|new)", path) or path.endswith("Arguments::from_str"):
             return [(Opaque("fmt::Arguments"), [])]
         raise Unsupported("call " + path)
